@@ -7,7 +7,10 @@ Case (drivers "direct" and "torstate" take the same case):
    "boot": [{"name": i, "addr": j, "exp": <offset s>|null}, ...]   distinct names; what
            GETINFO address-mappings/all lists at start-up (UTC time, three fields)
    "steps": [{"op": "map", "name": i, "addr": j, "exp": <offset s>|null, "form": "new"|"mid"|"utc3", "cached": bool}
-             {"op": "err", "name": i, "exp": <offset s>, "form": "new"|"mid"}
+             {"op": "err", "name": i, "exp": <offset s>, "form": "new"|"mid"|"old3", "kw": bool}
+                  kw = the (grammatically optional) error=yes keyword is present; old3 = 'name <error> "local"'
+             map and err lines may also carry "stream": n (STREAMID=n), "junk": true (an unknown KEY=value),
+                  "order": k (k-th permutation of the keyword arguments; 0 = the order Tor writes them in)
              {"op": "adv", "dt": <seconds >= 1>}
              {"op": "near", "k": n, "delta": d}     advance to (k-th pending expiry of the model) + d
              {"op": "listen", "j": l}               AddrMap.add_listener(listener l)
@@ -48,7 +51,10 @@ LEVEL = "exploration"
 RULE = ("Hypothesis-generated histories over 3 names x 4 addresses (2 IPv4, a bracketed IPv6, a host name): "
         "up to 3 start-up mappings plus up to 30 steps, each an ADDRMAP line exactly as Tor formats it "
         "(local time under a simulated zone offset + EXPIRES=UTC [+ CACHED], the three-field UTC form of "
-        "GETINFO address-mappings/all and of old Tors on a UTC host, NEVER, <error> with error=yes) with expiry "
+        "GETINFO address-mappings/all and of old Tors on a UTC host, NEVER, <error> with and without the optional "
+        "error=yes keyword in the extended, the CACHED-less and the 3-field local-time form; keyword arguments "
+        "error=/EXPIRES=/CACHED=/STREAMID=/unknown present or absent and, in a minority of lines, in another order; "
+        "a fifth address in the upper-case unbracketed IPv6 spelling a user may have configured, NEVER only) with expiry "
         "offsets from -1 h to +10 days, or a clock advance (1 s .. 11 days, or 'to d seconds before/after the "
         "k-th pending expiry'); fed through AddrMap.update and through a bootstrapped TorState (GETINFO + 650 "
         "ADDRMAP events); up to 3 listeners whose calls, per call, may feed a further line (timed/NEVER/<error>, "
@@ -65,7 +71,15 @@ ASSUMPTIONS = [
     "Tor's timestamps are whole seconds; the controller's clock may have a sub-second fraction",
     "the three-field line (no EXPIRES=) carries UTC: that is what GETINFO address-mappings/all emits and what "
     "a pre-EXPIRES Tor emits on a host whose zone is UTC; under any other zone that old form is ambiguous and not generated",
-    "<error> lines are generated only in the timed forms a Tor emits for failed resolves (error=yes, EXPIRES=)",
+    "<error> lines are timed (Tor reports failed resolves with the negative-cache expiry); an error mapping is one whose "
+    "NewAddress is <error> - control-spec makes the error= keyword optional ([SP Error]; it is absent without extended "
+    "events), so lines with and without it, in the extended, CACHED-less and 3-field local-time forms, must all drop the name",
+    "keyword arguments follow the positional fields; most lines use Tor's order (error=, EXPIRES=, CACHED=, STREAMID=), a "
+    "minority another order or an unknown KEY=value, which control-spec obliges controllers to tolerate; STREAMID and "
+    "unknown keywords are only added to lines that carry CACHED= (the Tors that send them always send CACHED=)",
+    "addresses are compared modulo spelling (txtorcon may return an ipaddress object); the non-canonical IPv6 spelling is "
+    "looked up exactly as Tor printed it and is generated only for never-expiring mappings, i.e. what a MapAddress / "
+    "MAPADDRESS target typed by the user looks like in GETINFO address-mappings/*",
     "guard band: a name is required alive only while now <= expiry-1 s and required gone only once now >= expiry+1 s "
     "and the scheduler has run since the mapping was announced; in between nothing is asserted about it",
     "a mapping announced with an expiry already in the past may be ignored, added and expired at once, or added and "
